@@ -271,8 +271,15 @@ func checkC05(c *Ctx) {
 	if cr := c.mustFn("C05-TRUNC", "Zlisp.CallResolved"); cr != nil {
 		trunc := c.mustFn("C05-TRUNC", "Stack.TruncateToSize")
 		datastack := c.mustField("C05-TRUNC", "Zlisp", "datastack")
-		if trunc != nil && datastack != nil && len(cr.AnonFuncs) == 1 {
-			prepare := cr.AnonFuncs[0]
+		wrappers, direct := c.argPreparers(cr)
+		if trunc != nil && datastack != nil && len(wrappers)+len(direct) > 0 {
+			isPrep := map[*ssa.Function]bool{}
+			for _, g := range wrappers {
+				isPrep[g] = true
+			}
+			for _, g := range direct {
+				isPrep[g] = true
+			}
 			isTrunc := func(in ssa.Instruction) bool {
 				ci, ok := in.(ssa.CallInstruction)
 				if !ok || ci.Common().StaticCallee() != trunc {
@@ -281,31 +288,37 @@ func checkC05(c *Ctx) {
 				_, ok = loadOfField(ci.Common().Args[0], datastack)
 				return ok
 			}
-			// inside prepare: error returns preceded by truncate in the same block
-			for _, r := range returnsOf(prepare) {
-				if isNilConst(r.Results[0]) {
-					continue
-				}
-				okT := false
-				for _, in := range r.Block().Instrs {
-					if isTrunc(in) {
-						okT = true
+			// inside a preparation wrapper: error returns preceded by truncate in the same block
+			for _, prepare := range wrappers {
+				for _, r := range returnsOf(prepare) {
+					if isNilConst(r.Results[0]) {
+						continue
 					}
+					okT := false
+					for _, in := range r.Block().Instrs {
+						if isTrunc(in) {
+							okT = true
+						}
+					}
+					c.check(okT, "C05-TRUNC", fnName(prepare), "error return", r.Pos(), "data stack truncated before the preparation error is returned",
+						"argument preparation fails without truncating the data stack to its starting size: evaluated arguments stay behind")
 				}
-				c.check(okT, "C05-TRUNC", "Zlisp.CallResolved$1", "error return", r.Pos(), "data stack truncated before the preparation error is returned",
-					"argument preparation fails without truncating the data stack to its starting size: evaluated arguments stay behind")
 			}
 			// in CallResolved: returns of a possibly non-nil error in blocks reachable from a prepare call
 			var prepBlocks []*ssa.BasicBlock
 			prepResults := map[ssa.Value]bool{}
 			eachInstr(cr, func(b *ssa.BasicBlock, i int, in ssa.Instruction) {
-				if call, ok := in.(*ssa.Call); ok && call.Call.StaticCallee() == prepare {
+				if call, ok := in.(*ssa.Call); ok && isPrep[call.Call.StaticCallee()] && call.Call.StaticCallee() != nil {
 					prepBlocks = append(prepBlocks, b)
-					prepResults[call] = true
+					for _, w := range wrappers {
+						if call.Call.StaticCallee() == w {
+							prepResults[call] = true // the wrapper has truncated already
+						}
+					}
 				}
 			})
 			if len(prepBlocks) == 0 {
-				c.undecided("C05-TRUNC", "Zlisp.CallResolved", "prepare calls", cr.Pos(), "no call of the argument-preparation closure found")
+				c.undecided("C05-TRUNC", "Zlisp.CallResolved", "prepare calls", cr.Pos(), "no call of an argument-preparation routine found")
 			}
 			for _, r := range returnsOf(cr) {
 				v := r.Results[0]
@@ -362,7 +375,7 @@ func checkC05(c *Ctx) {
 					"a failing call returns its error without truncating the data stack to its starting size")
 			}
 		} else {
-			c.undecided("C05-TRUNC", "Zlisp.CallResolved", "shape", cr.Pos(), "CallResolved no longer has exactly one closure (argument preparation)")
+			c.undecided("C05-TRUNC", "Zlisp.CallResolved", "shape", cr.Pos(), "CallResolved calls nothing that reaches PrepareCallExprArgs: the argument preparation was not found")
 		}
 	}
 
@@ -640,6 +653,36 @@ func (c *Ctx) isExecuteMethod(f *ssa.Function) bool {
 	}
 	it, ok := instr.Underlying().(*types.Interface)
 	return ok && types.Implements(f.Signature.Recv().Type(), it)
+}
+
+// argPreparers: the routines through which CallResolved marshals the arguments of
+// a call: PrepareCallExprArgs itself when it is called directly, and the wrappers
+// (a local closure, a method, a function) that call it on CallResolved's behalf.
+func (c *Ctx) argPreparers(cr *ssa.Function) (wrappers, direct []*ssa.Function) {
+	pcea := c.fn("Zlisp.PrepareCallExprArgs")
+	if pcea == nil {
+		return nil, nil
+	}
+	seen := map[*ssa.Function]bool{}
+	eachInstr(cr, func(b *ssa.BasicBlock, i int, in ssa.Instruction) {
+		call, ok := in.(*ssa.Call)
+		if !ok {
+			return
+		}
+		g := call.Call.StaticCallee()
+		if g == nil || seen[g] {
+			return
+		}
+		seen[g] = true
+		if g == pcea {
+			direct = append(direct, g)
+			return
+		}
+		if fnPkgPath(g) == zygoPath && len(g.Blocks) > 0 && len(callsOf(g, pcea)) > 0 {
+			wrappers = append(wrappers, g)
+		}
+	})
+	return wrappers, direct
 }
 
 // registrationFns: the methods of the type registry through which a user type
